@@ -3,6 +3,8 @@ package yqlib
 import (
 	"fmt"
 	"strings"
+
+	"github.com/mikefarah/yq/v4/pkg/verifhook"
 )
 
 type ExpressionNode struct {
@@ -26,15 +28,18 @@ func newExpressionParser() ExpressionParserInterface {
 
 func (p *expressionParserImpl) ParseExpression(expression string) (*ExpressionNode, error) {
 	log.Debug("Parsing expression: [%v]", expression)
+	verifhook.Yield("parse")
 	tokens, err := p.pathTokeniser.Tokenise(expression)
 	if err != nil {
 		return nil, err
 	}
+	verifhook.Yield("parsed.tokens")
 	var Operations []*Operation
 	Operations, err = p.pathPostFixer.ConvertToPostfix(tokens)
 	if err != nil {
 		return nil, err
 	}
+	verifhook.Yield("parsed.postfix")
 	return p.createExpressionTree(Operations)
 }
 
